@@ -9,7 +9,7 @@ CONSTANTS
   MaxAfterTouch = 9
   EagerWrite = TRUE
   HelperBug = FALSE
-  MaxRuns = 4
+  MaxRuns = 3
 SPECIFICATION Spec
 INVARIANT Fresh 
 PROPERTIES Idempotent FailedRunTouchesNothing
